@@ -114,3 +114,11 @@ package fetcher
 //@ func newIndexFetcher -> (r, err)
 //@   assert before call#1 CopyField: !res(containsOrOperator, 1, 0) && callarg(containsOrOperator, 1, 0) == docFilter && arg0 == docFilter
 //@   tags C07
+//@
+//@ // ===== C08 (no request makes the node panic): closing the iterator of an _in filter closes the iterator of
+//@ // the value it is at (the caller may stop early, e.g. because of a limit; an open store iterator makes the
+//@ // transaction's Discard panic)
+//@ func (*inIndexIterator).Close -> (err)
+//@   ensures old(iter.hasIterator) ==> called(Close, 1) && err == res(Close, 1, 0)
+//@   assert before call#1 Close: !iter.hasIterator
+//@   tags C08 C07
